@@ -20,11 +20,13 @@ CHECKS = {
         ],
         "rule": "case = generated dictionary (1-6 categories, overlapping ranges, matrix/raw/dual connector, optional user lexicon, "
                 "optional id mapping before/after the user lexicon, optional write/read) x 1-2 option settings x 24 strings over a "
-                "1-4-byte alphabet; every tokenization is judged by the partition checker. Non-trivial = sentence of >= 2 characters "
+                "1-4-byte alphabet (incl. U+10FFFF); every tokenization is judged by the partition checker; 2% of the matrix dictionaries have "
+                "more than 4096 right ids, half of the tokenizers get their options through a history of setter calls, and in 6% of the "
+                "cases one row gets an id equal to the connector dimension (if the builder accepts it tokenization must not panic). Non-trivial = sentence of >= 2 characters "
                 "with a complete reference path; distinct = hash of (dictionary description, user lexicon, mapping, sentence, options).",
         "required_buckets": ["connector_matrix", "connector_raw", "connector_dual", "with_user_lexicon", "with_id_mapping",
                              "astral_in_sentence", "inner_gap_observed", "leading_gap_observed", "trailing_gap_observed",
-                             "unknown_token_observed", "user_token_observed"],
+                             "unknown_token_observed", "user_token_observed", "id_equal_to_dimension_rejected_by_builder"],
         "assumptions": ["the reference character table (last covering range line wins, DEFAULT otherwise) is the reading of char.def the property states",
                         "termination is observed up to the per-stage watchdog only"],
     },
@@ -73,10 +75,11 @@ CHECKS = {
                 "read after a tokenize is compared with a fresh worker's result for the same sentence, every read between reset_sentence and "
                 "tokenize with what a fresh worker shows after the same reset_sentence; (2) 2-16 threads, each with its own "
                 "worker of ONE shared Tokenizer, run random sentence lists concurrently with seeded yield points, each result compared with "
-                "the sequential one; client-side tickets record overlapping calls. TSan (and Miri, thorough) watch the thread workload. "
+                "the sequential one; client-side tickets record overlapping calls; 12% of the workloads are long (8 workers x 1500 calls) and 8% "
+                "of the dictionaries have more than 4096 right ids. TSan (and Miri, thorough) watch the thread workload. "
                 "Non-trivial = a history, or a thread workload in which calls of different threads overlapped; distinct by content hash.",
         "required_buckets": ["tokenize_repeated", "shorter_after_longer", "empty_sentence_in_history", "non_empty_after_empty",
-                             "update_counts_in_history", "threads_overlapped", "read_between_reset_and_tokenize"],
+                             "update_counts_in_history", "threads_overlapped", "read_between_reset_and_tokenize", "more_than_4096_right_ids", "long_thread_workload"],
         "assumptions": ["interleavings are sampled (OS scheduler + seeded yields), not enumerated",
                         "Tokenizer: Send + Sync and Dictionary: Send + Sync are asserted at compile time by the harness"],
     },
@@ -94,7 +97,7 @@ CHECKS = {
         "required_buckets": ["connector_matrix", "connector_raw", "connector_dual", "mapped_twice_or_more", "user_lexicon_after_two_mappings",
                              "user_lexicon_before_mapping", "with_write_read", "user_token_after_mapping",
                              "malformed_mapping_rejected_contains_0", "malformed_mapping_rejected_duplicate", "malformed_mapping_rejected_too_short",
-                             "malformed_mapping_rejected_too_long", "malformed_mapping_rejected_out_of_range"],
+                             "malformed_mapping_rejected_too_long", "malformed_mapping_rejected_out_of_range", "witness_65536_right_ids_mapped_ok"],
         "assumptions": ["mapping convention as pinned by the existing test_parse_basic: the i-th item is the old id that receives new id i"],
     },
     "C08": {
@@ -121,15 +124,17 @@ CHECKS = {
             st("avx2", "avx2", [250, 5000], [20, 300]),
             st("dbgassert", "relda", [250, 4000], [20, 200], shards=8),
         ],
-        "rule": "dictionaries meeting the stated precondition (U+0020/U+3000 in SPACE alone, nothing else in SPACE, no surface with a space) "
+        "rule": "dictionaries meeting the stated precondition (the characters of SPACE - U+0020, U+3000 and in 30% of the cases one of Z - . 2 - "
+                "belong to SPACE alone, no character shares SPACE with another category, no surface contains one of them) "
                 "with ignore_space on; each sentence is compared with up to 8 re-spaced variants (every space run rewritten to another "
                 "non-zero length/composition, leading/trailing runs added or removed): token sequences exactly when the reference optimum "
                 "is unique, by optimal cost otherwise; no token contains a space; spaces-only sentences yield nothing; agreement with the "
-                "reference skip rule (candidates, membership, optimum); ignore_space(true) without SPACE must be Err. "
+                "reference skip rule (candidates, membership, optimum); ignore_space(true) without SPACE must be Err; half of the tokenizers are "
+                "configured through an option history (opposite values first). "
                 "Non-trivial = sentence with a space run and >= 1 token compared with >= 1 variant; distinct = hash of (dictionary, sentence).",
         "required_buckets": ["inner_space_run", "leading_space_run", "trailing_space_run", "spaces_only_sentence",
                              "grouped_unknown_word_next_to_space", "ignore_space_rejected_without_SPACE", "connector_matrix", "connector_raw", "connector_dual",
-                             "space_run_longer_than_65535"],
+                             "space_run_longer_than_65535", "space_category_with_non_whitespace_character"],
         "assumptions": [],
     },
     "C05": {
@@ -172,7 +177,7 @@ CHECKS = {
         "required_buckets": ["templates_lt8", "templates_eq8", "templates_gt8_not_multiple", "templates_multiple_of_8", "ragged_rows",
                              "cost_entry_for_empty_empty", "cost_entry_with_one_empty_side", "quoted_feature_cells",
                              "cell_read_through_probe_sentence", "scorer_small_scope_enumerated", "scorer_random_key_sets",
-                             "connector_compared_after_write_read", "connector_compared_after_id_mapping"],
+                             "connector_compared_after_write_read", "connector_compared_after_id_mapping", "witness_dual_presum_exactly_i16_min_ok", "witness_raw_connector_id_65535_ok"],
         "assumptions": ["bigram.cost never names the feature '*' and feature strings contain no '/' or tab (the file format cannot express them)",
                         "the generator bounds costs so that the dual connector's stated precondition (pre-summed part fits 16 bits) always holds"],
     },
@@ -190,7 +195,7 @@ CHECKS = {
                 "Distinct = (image, shard residue class).",
         "required_buckets": ["every_prefix_of_image_enumerated", "image_matrix_connector", "image_raw_connector", "image_dual_connector",
                              "all_single_byte_header_corruptions", "reader_1_byte_per_call_ok", "reader_spurious_interrupted_ok",
-                             "io_error_surfaced_as_err", "interrupted_write_is_err_and_strict_prefix"],
+                             "io_error_surfaced_as_err", "interrupted_write_is_err_and_strict_prefix", "reader_short_first_chunk_ok"],
         "exhaustive_bucket": "every_prefix_of_image_enumerated",
         "exhaustive_scope": "all strict prefixes (truncation points) of the images enumerated in this run; the images themselves are sampled",
         "assumptions": ["arbitrary corruption (as opposed to truncation and a foreign header) is outside C09"],
@@ -226,7 +231,7 @@ CHECKS = {
                 "Distinct = hash of (dictionary, history).",
         "required_buckets": ["empty_line_in_history", "empty_first_line", "no_line_at_all", "repeated_line", "trailing_spaces_with_ignore_space",
                              "frequency_ties", "reorder_output_accepted_by_map", "cost_eval_events_equal_recount", "large_id_space_with_ties",
-                             "cli_pipeline_compile_reorder_map_tokenize", "cli_reorder_input_with_empty_line"],
+                             "cli_pipeline_compile_reorder_map_tokenize", "cli_reorder_input_with_empty_line", "witness_65536_right_ids_mapped_ok"],
         "assumptions": ["with ignore_space the histories use dictionaries meeting C12's precondition (where the skip rule is unambiguous)"],
     },
     "C10": {
@@ -247,7 +252,7 @@ CHECKS = {
         "required_buckets": ["builder_returned_err", "builder_returned_dictionary", "reference_parsers_accept_too", "reference_parsers_decline",
                              "accepted_dictionary_checked_against_reference_reading", "user_lexicon_rejected", "mapping_sequence_no_panic",
                              "err_char.def", "err_lex.csv", "err_unk.def", "err_matrix.def", "err_bigram.cost", "seed_bundled_resources",
-                             "reader_io_error_surfaced_as_err"],
+                             "reader_io_error_surfaced_as_err", "two_or_more_accepted_mappings_in_a_row"],
         "assumptions": ["the strict reference parsers accept only a conservative subset of each format; when they decline, only the no-panic and id-range clauses are judged",
                         "out-of-memory aborts caused by absurd declared sizes are reported as process aborts, not silently ignored"],
     },
@@ -284,7 +289,7 @@ CHECKS = {
                 "Distinct = hash of the generated files.",
         "required_buckets": ["training_succeeded", "generated_twice", "in_memory_vs_reloaded_compared", "second_round_trip_compared", "model_read_through_chunked_reader",
                              "user_lexicon_added_after_a_generation", "user_lexicon_added_before_first_generation",
-                             "cli_pipeline_train_dictgen_twice", "cli_files_equal_in_process_files"],
+                             "cli_pipeline_train_dictgen_twice", "cli_files_equal_in_process_files", "seed_surface_with_line_break", "model_and_user_lexicon_from_one_stream"],
         "assumptions": ["user entries are not part of the stored model (the CLI re-reads them), so user.csv is compared only when both sides read the same user lexicon"],
     },
     "C16": {
@@ -347,7 +352,7 @@ CHECKS = {
                 "dictionary (any connector kind, -S/-M options) with 33 input lines and parses their stdout as a corpus: tokens = the "
                 "tokens obtained in-process for the same lines. Distinct = hash of the corpus text / CLI output.",
         "required_buckets": ["sentence_without_tokens_dropped", "token_whose_surface_is_EOS", "malformed_line_rejected", "non_utf8_line_rejected",
-                             "tokenizer_cli_output_parsed_as_corpus"],
+                             "tokenizer_cli_output_parsed_as_corpus", "token_of_65536_bytes_or_more", "first_line_starts_with_U+FEFF"],
         "assumptions": ["tokenizer inputs and dictionary features contain no tab or line break"],
     },
     "C20": {
